@@ -1,5 +1,8 @@
 (* C04 — search_data is a faithful, ordered record of what was evaluated.  Statements only. *)
 Require Import Base StopRun Converter Driver DriverObs DriverFacts ConverterFacts MemFacts C04_proofs.
+Require Import PyPrims PyPrimsQ MemGen MemTie ResGen DriverGen DriverTie SearchGen SearchTie ResTie.
+From RecordUpdate Require Import RecordSet.
+Import RecordSetNotations.
 
 (* for every optimizer, deterministic objective f0, memory off / on / warm-started and prior history:
    the call appends one row per step, in order; row i carries the values decoded from position i and the
@@ -18,3 +21,25 @@ Example C04_nonvacuous :
               /\ ob_fcalls o = [[30]; [10]]
   | _ => False end.
 Proof. vm_compute. split; reflexivity. Qed.
+
+(* ---------- the score path GENERATED from /repo's source: ResultsManager.score._wrapper (generated/ResGen.v) around Memory.memory's wrapper
+   (generated/MemGen.v) or around the raw objective IS the model's inner_score (the part of score_of between the two clock readings, which
+   C04_rows_faithful is about): position -> value -> para -> (memory) -> objective -> one row appended, the score returned *)
+Theorem C04_source_results_wrapper_refines_memory_on : forall (OP : optimizer) sp names f, NoDup names -> length names = length sp ->
+  forall (s : drv OP) p, c_memory (d_call s) = true ->
+  match g_ResultsManager_wrapper sp names g_mem (g_Memory_wrapper sp names f) (mkGRes g_mem (d_rows s) (mem_of s)) p with
+  | Ok (g', sc) => inner_score sp f s p = Ok ((with_mem s (rg_inner g_mem g')) <| d_rows := rg_results_list g_mem g' |>, sc)
+  | Err e => inner_score sp f s p = Err e
+  end.
+Proof. exact (@results_wrapper_tie_memory_on). Qed.
+Print Assumptions C04_source_results_wrapper_refines_memory_on.
+
+Theorem C04_source_results_wrapper_refines_memory_off : forall (OP : optimizer) sp names f, NoDup names -> length names = length sp ->
+  forall (s : drv OP) p, c_memory (d_call s) = false ->
+  match g_ResultsManager_wrapper sp names (list values) (obj_raw names f) (mkGRes (list values) (d_rows s) (d_fcalls s)) p with
+  | Ok (g', sc) => inner_score sp f s p =
+                   Ok (s <| d_fcalls := rg_inner (list values) g' |> <| d_rows := rg_results_list (list values) g' |>, sc)
+  | Err e => inner_score sp f s p = Err e
+  end.
+Proof. exact (@results_wrapper_tie_memory_off). Qed.
+Print Assumptions C04_source_results_wrapper_refines_memory_off.
